@@ -18,7 +18,7 @@ RULES
 - Build/test offline only: export CARGO_NET_OFFLINE=true ; always pass --offline to cargo. Use the worktree's own target dir (default ./target inside {wt}). Limit parallelism with `-j 6` / `--test-threads 6` because other jobs share this machine.
 - The change must be the kind of mistake a developer could plausibly make (a wrong comparison, a missing step, a mis-ordered update, a wrong boundary, an optimisation that is not quite valid, two edits that each look fine alone). It should need something SPECIFIC to manifest: a particular interleaving or history, a multi-step sequence of operations, a crash/fault at a particular point, an unusual input, a boundary size — NOT something that ordinary use would expose at once. Keep it small (typically < 30 changed lines), in non-test code, not behind any cfg/feature flag, no edits to existing tests.
 - It must still compile, and the existing tests must still pass. At minimum run the full test suite of every crate you touched (e.g. `cargo test --offline -p grafeo-engine -j 6 -- --test-threads 6`, likewise grafeo-core / grafeo-common / grafeo-adapters) and report the pass counts. If an existing test fails because of your change, choose a different change.
-- Write a demonstration: a new Rust integration test file (e.g. {wt}/crates/grafeo-engine/tests/seed_demo_{pid.lower()}.rs, or the crate that fits) using only the public API, which FAILS with your change and PASSES on the unmodified code. Verify both: run it with the change (fails), then `git stash` the source change (keep the test), run it (passes), then `git stash pop`.
+- Write a demonstration: a new Rust integration test file (e.g. {wt}/crates/grafeo-engine/tests/seed_demo_{pid.lower()}.rs, or the crate that fits) using only the public API, which FAILS with your change and PASSES on the unmodified code. Verify both: run it with the change (fails); then save your source change with `git diff -- crates ':!*/tests/*' > /tmp/my_{pid}.diff`, revert it with `git apply -R /tmp/my_{pid}.diff` (keep the test), run it (passes), then re-apply with `git apply /tmp/my_{pid}.diff`. NEVER use `git stash`: the stash is shared by all worktrees of /repo and other processes use it.
 - Note: the tree at HEAD may already violate parts of this property in some ways (known defects). Your demonstration must pass on unmodified HEAD and fail only with your change, so pick behaviour that is correct at HEAD.
 
 DELIVERABLES (write these files, then report their paths and a summary in your final answer)
